@@ -28,6 +28,7 @@ finally:
     sys.stdout = _real_stdout
 from common import tokenizer as tk  # noqa: E402
 from common.ctlgen import gen_ctl, lean_str  # noqa: E402
+from common import lexcheck  # noqa: E402
 
 from PIL import Image  # noqa: E402
 import term_image  # noqa: E402
@@ -896,43 +897,10 @@ def lean_kind(d) -> str:
 # ------------------------------------------------------------------------------------------
 
 
-DECSC, DECRC = "\x1b7", "\x1b8"
-
-
-def expand_decsc(out: str, W, H, kind, row, top):
-    """DECSC / DECRC (ESC 7 / ESC 8) are not sequences the library is known to write and not tokens of the shared
-    terminal model; the oracle gives them their meaning here: DECSC remembers the cursor's position ON THE SCREEN
-    (row relative to the viewport, column), DECRC puts the cursor back there — wherever the viewport has scrolled to
-    in the meantime. Each DECRC is replaced by the explicit cursor moves that do the same from the state the
-    terminal model is in at that point (one driver call per DECRC). Returns the token list."""
-    import re
-    pieces = re.split("(\x1b7|\x1b8)", out)
-    toks: list = []
-    saved = (0, 0)  # the power-on value: home
-    for p in pieces:
-        if p not in (DECSC, DECRC):
-            toks += tk.tokenize(p)
-            continue
-        st = parse_state(fw.run_driver(DRIVER, [f"term.run {W} {H} {kind} {row} 0 {top} 0 {tk.wire(toks)}"])[0])
-        if p == DECSC:
-            saved = (st["row"] - st["top"], st["col"])
-        else:
-            target = st["top"] + saved[0]
-            moves = "\r"
-            if target < st["row"]:
-                moves += ctl.CURSOR_UP % (st["row"] - target)
-            elif target > st["row"]:
-                moves += ctl.CURSOR_DOWN % (target - st["row"])
-            if saved[1]:
-                moves += ctl.CURSOR_FORWARD % saved[1]
-            toks += tk.tokenize(moves)
-    return toks
-
-
 def parse_state(resp: str):
     p = resp.split(" ")
     if p[0] != "ok":
-        raise RuntimeError("term.run: " + resp[:200])
+        raise RuntimeError("term.run: " + resp[:200])  # incl. `err lex` for a piece of real output the lexer rejects
     row, col, pw, top, scrolls, wrapped, fg, bg, vis = p[1:10]
     nimg = int(p[10])
     rest = p[11 + nimg:]
@@ -959,7 +927,8 @@ from common.py2lean_specs import with_translation  # noqa: E402
 class C06(Property):
     id = "C06"
     title = "draw() leaves the picture in place and the cursor on the line below it"
-    lean_props = ["TIV.C06.Props", "TIV.C06.Compose", "TIV.C06.Scroll", "TIV.C06.Cover", "TIV.C06.Placements"]
+    lean_props = ["TIV.C06.Props", "TIV.C06.Compose", "TIV.C06.Scroll", "TIV.C06.Cover", "TIV.C06.Placements", "TIV.C06.LexProps",
+                  "TIV.Common.LexProofs"]
     driver = DRIVER
     partial = ("that real terminals behave like TIV.Common.Term; a first frame that scrolls the viewport is proved for "
                "line-wise frames (block, kitty/iterm2 LINES) only - whole-image graphics written while part of the box is "
@@ -1092,6 +1061,7 @@ class C06(Property):
                 res += f" {chk[1]} {chk[3]}"
         case.line = line
         d["_stream"] = r.stream.getvalue()
+        self._outs.append(d["_stream"])
         d["_segments"] = list(r.stream.segments)
         d["_box"] = list(r.box)
         d["_inner"] = list(r.inner) if r.inner else None
@@ -1115,18 +1085,9 @@ class C06(Property):
         f = self._oracle_validate(d, where, raised=False)
         if f:
             return f
-        decsc = DECSC in out or DECRC in out
-        try:
-            toks = None if decsc else tk.tokenize(out)
-            if decsc:  # every other unknown sequence stays a finding
-                for piece in out.replace(DECRC, DECSC).split(DECSC):
-                    tk.tokenize(piece)
-        except tk.TokenizeError as e:
-            return Failure(f"tokenize/{where}", str(e))
         W, H = d["W"], d["H"]
         bw, bh = d["_box"]
-        if bw > W or (bh > H and (anim or not line_local(d))):
-            return None  # nothing is claimed when the box cannot fit (validation off) and the render is not line-wise
+        fits = not (bw > W or (bh > H and (anim or not line_local(d))))
         rng = random.Random(hash(case.line) & 0xFFFFF)
         starts = [0, max(H - bh, 0)]
         if line_local(d):
@@ -1134,11 +1095,15 @@ class C06(Property):
         else:
             starts += [rng.randrange(0, max(H - bh, 0) + 1)]
         top0 = rng.randrange(0, 3)
-        reqs = []
-        for s0 in starts:
-            tks = expand_decsc(out, W, H, lean_kind(d), top0 + s0, top0) if decsc else toks
-            reqs.append(f"term.run {W} {H} {lean_kind(d)} {top0 + s0} 0 {top0} 0 {tk.wire(tks)}")
-        res = fw.run_driver(DRIVER, reqs)
+        # the real BYTES go to the Lean side: one reading by the Lean lexer (`TIV.Lex.lex`), run on every terminal
+        ans = lexcheck.parse_runbytes_n(lexcheck.run_batched(DRIVER, [lexcheck.runbytes_n_request(
+            out, [(W, H, lean_kind(d), top0 + s0, 0, top0, 0) for s0 in starts])])[0])
+        if ans is None:
+            return Failure(f"tokenize/{where}", "the Lean lexer rejects the stream: it is not a sequence of complete, canonical "
+                           f"control sequences of the library ({out[:60]!r}…)")
+        toks, res = ans  # wire tokens as read by the Lean lexer
+        if not fits:
+            return None  # nothing is claimed when the box cannot fit (validation off) and the render is not line-wise
         for s0, resp in zip(starts, res):
             st = parse_state(resp)
             r0 = top0 + s0
@@ -1161,12 +1126,21 @@ class C06(Property):
             if st["scrolls"] != need:
                 return Failure(f"scroll/{where}", f"scrolled {st['scrolls']} lines, {need} necessary ({at})")
         # last frame in place + every frame over the same cells (first start row that fits)
-        if decsc:
-            return None  # the per-frame attribution below needs the library's own sequences only
         s0 = 0
         r0 = top0 + s0
         f = self._oracle_frames(d, where, toks, W, H, r0, top0, anim)
         return f
+
+    _outs: list = []
+
+    def extra_checks(self, rng, tier, ev):
+        """the Python tokenizer (still used to build the model's request lines) against the Lean lexer, on every real output"""
+        outs = list(dict.fromkeys(self._outs))
+        bad = lexcheck.cross_check(self.driver, outs)
+        ev["coverage"]["lexer_cross_check"] = {"outputs": len(outs), "disagreements": len(bad)}
+        if bad:
+            raise RuntimeError("Python tokenizer and Lean lexer disagree: " + "; ".join(bad[:2]))
+        return []
 
     def _oracle_validate(self, d, where, raised: bool):
         """the documented size rules, evaluated directly"""
@@ -1196,6 +1170,16 @@ class C06(Property):
         return None
 
     def _oracle_frames(self, d, where, toks, W, H, r0, top0, anim):
+        """`toks`: the wire tokens of the whole stream as read by the Lean lexer; every other piece of real output used
+        here (first padded frame, last frame, segments) goes to the Lean side as bytes too"""
+        out = d["_stream"]
+
+        def rb(text, row, col, lm):  # one terminal run of real bytes; None = the lexer rejects them
+            return lexcheck.runbytes_request(W, H, kind, row, col, top0, lm, text)
+
+        def wire(ws):
+            return " ".join([str(len(ws))] + ws)
+
         bw, bh = d["_box"]
         frames = d["_frames"]
         if not frames or bh > H:
@@ -1206,10 +1190,8 @@ class C06(Property):
             t, l, w, h = d["_inner"]
             segs = d["_segments"]
             first_padded = segs[1] if (d["tty"] and d["hide"]) else segs[0]
-            reqs = [f"term.run {W} {H} {kind} {r0} 0 {top0} 0 {tk.wire(tk.tokenize(first_padded))}",
-                    f"term.run {W} {H} {kind} {r0 + t} {l} {top0} {l} {tk.wire(tk.tokenize(frames[-1]))}",
-                    f"term.run {W} {H} {kind} {r0} 0 {top0} 0 {tk.wire(toks)}"]
-            a, b, got_state = (parse_state(x) for x in fw.run_driver(DRIVER, reqs))
+            reqs = [rb(first_padded, r0, 0, 0), rb(frames[-1], r0 + t, l, l), rb(out, r0, 0, 0)]
+            a, b, got_state = (parse_state(x) for x in lexcheck.run_batched(DRIVER, reqs))
             want = cells_of(a["writes"])
             if anim:
                 want.update(cells_of(b["writes"]))
@@ -1229,9 +1211,7 @@ class C06(Property):
             rw = d["pad_width"] if d["pad_width"] > 0 else max(d["W"] + d["pad_width"], 1)
             rh = d["pad_height"] if d["pad_height"] > 0 else max(d["H"] + d["pad_height"], 1)
             padded = im._format_render(frames[-1] if anim else frames[0], d["h_align"], rw, d["v_align"], rh)
-            a, got_state = (parse_state(x) for x in fw.run_driver(DRIVER, [
-                f"term.run {W} {H} {kind} {r0} 0 {top0} 0 {tk.wire(tk.tokenize(padded))}",
-                f"term.run {W} {H} {kind} {r0} 0 {top0} 0 {tk.wire(toks)}"]))
+            a, got_state = (parse_state(x) for x in lexcheck.run_batched(DRIVER, [rb(padded, r0, 0, 0), rb(out, r0, 0, 0)]))
             want = cells_of(a["writes"])
             inner = None
             # graphics placements (kitty proper: the code clears earlier frames by z-index or at the cursor): what is left
@@ -1264,7 +1244,7 @@ class C06(Property):
             # every later frame is drawn over exactly the first frame's render rectangle
             segs = d["_segments"]
             later = {fr.replace("\n", "\n" + ctl.cursor_forward(d["_inner"][1])) for fr in frames[1:]}
-            counts = [len(tk.tokenize(s)) for s in segs]
+            counts = [int(x.split(" ", 1)[0]) for x in lexcheck.lean_lex_many(DRIVER, segs)]  # tokens per write, Lean's reading
             first_seen = False
             spans = []
             pos = 0
@@ -1277,8 +1257,8 @@ class C06(Property):
             spans = spans[:4]
             reqs = []
             for a_, b_ in spans:
-                reqs.append(f"term.run {W} {H} {kind} {r0} 0 {top0} 0 {tk.wire(toks[:a_])}")
-                reqs.append(f"term.run {W} {H} {kind} {r0} 0 {top0} 0 {tk.wire(toks[:b_])}")
+                reqs.append(f"term.run {W} {H} {kind} {r0} 0 {top0} 0 {wire(toks[:a_])}")
+                reqs.append(f"term.run {W} {H} {kind} {r0} 0 {top0} 0 {wire(toks[:b_])}")
             if reqs:
                 sts = [parse_state(x) for x in fw.run_driver(DRIVER, reqs)]
                 for i in range(0, len(sts), 2):
@@ -1304,9 +1284,7 @@ class C06(Property):
             return None
         top = min(r for r, c, v in last_alone["writes"])
         pre = "\n".join(["x" * bw] * bh) + "\r" + ctl.cursor_up(bh - 1)
-        pre_toks = tk.tokenize(pre)
-        st = parse_state(fw.run_driver(DRIVER, [
-            f"term.run {W} {H} {kind} 0 0 0 0 {tk.wire(pre_toks + toks)}"])[0])
+        st = parse_state(lexcheck.run_batched(DRIVER, [lexcheck.runbytes_request(W, H, kind, 0, 0, 0, 0, pre + d["_stream"])])[0])
         after = st["writes"][bw * bh:]
         cleared = {(r, c) for r, c, v in after if v.startswith("e:") or v.startswith("t:")}
         want = {(r - top, c) for r, c in img_cells}
